@@ -572,6 +572,12 @@ class ListModel:
             else:
                 k = op[2] % len(self.args)
                 arg, items = self.args[k], list(self.args_model[k])
+            if len(model) + len(items) > 96:
+                # (a list extended from itself doubles at every step: keep
+                # the sizes bounded, the history stays as drawn)
+                ctx.count('extend_from_skipped_large')
+                ctx.count('steps')
+                return
             real.extend(arg)
             model.extend(items)
         elif kind == 'new_empty':
